@@ -37,6 +37,17 @@ Section C01.
     forall m, 1 <= m <= M -> forall x, fst r m x = u m x.
   Proof. exact (gi_collocation_is_fixed_point kO kI kadd kmul ksub kopp keqb Rth keqb_true M dt t0 nodes Q solve feval). Qed.
 
+
+  (* the same for the IMEX sweeper: any fixed point (any lower-triangular QI, strictly lower-triangular QE)
+     solves the collocation problem for the FULL right-hand side f_impl + f_expl (nonlinear parts allowed) *)
+  Theorem C01_imex_fixed_point_is_collocation : forall QI QE u f tau,
+    solver_contract kmul ksub solve feval 0 -> feval_ext feval -> lower_triangular kO QI -> strictly_lower_triangular kO QE ->
+    consistent kadd kmul M dt t0 nodes feval u f ->
+    let r := imex_update kO kadd kmul ksub M dt t0 nodes Q solve feval QI QE u f tau in
+    (forall m, 1 <= m <= M -> forall x, fst r m x = u m x) ->
+    collocation2 kO kadd kmul M dt Q u f tau.
+  Proof. exact (imex_fixed_point_is_collocation kO kI kadd kmul ksub kopp Rth M dt t0 nodes Q solve feval). Qed.
+
   (* zero residual <=> collocation equation (the residual IS the defect) *)
   Theorem C01_residual_zero_iff_collocation : forall (u : nat -> V) f tau m x,
     residual_vec kO kadd kmul ksub M dt Q 1 u f tau m x = kO <->
@@ -46,4 +57,5 @@ End C01.
 
 Print Assumptions C01_fixed_point_is_collocation.
 Print Assumptions C01_collocation_is_fixed_point.
+Print Assumptions C01_imex_fixed_point_is_collocation.
 Print Assumptions C01_residual_zero_iff_collocation.
